@@ -398,15 +398,17 @@ Lemma run_input_sim f mv acc now nowi s c i s1 p :
   exists c1, imp_payload f nowi c now p = inl c1 /\ Sim f mv acc s1 c1.
 Proof.
   intros HI S Hacc.
-  destruct i as [ps ts ref md amd force | id force at_eff rmeta | [a|id] md | [a|id] k]; simpl.
-  - (* create *)
+  script_split i.
+  { simpl. unfold create_tx. (* create *)
     destruct ps as [|q ps']; [discriminate|].
     destruct (feasible force (s_vols s) (q :: ps')); simpl; [|discriminate].
     destruct (commit_transaction f now s (q :: ps') md ts ref) as [s0 [t|]] eqn:E; [|discriminate].
     intros H; inversion H; subst; clear H. cbn [imp_payload].
     destruct (imp_commit_sim f mv acc now s c _ _ _ _ _ _ HI S E) as (c1 & t' & Ec & S1 & _).
     rewrite Ec. eexists. split; [reflexivity|]. unfold imp_upsert_accounts.
-    apply upsert_tx_accounts_sim; [exact S1 | reflexivity].
+    apply upsert_tx_accounts_sim; [exact S1 | reflexivity]. }
+  destruct i as [ps ts ref md amd force | id force at_eff rmeta | [a|id] md | [a|id] k | ps ts ref md amd force smd samd];
+    [apply Hc | | | | | | script_bullet Hc]; simpl.
   - (* revert *)
     destruct (find_tx (s_txs s) id) as [t|] eqn:F; [|discriminate].
     destruct (t_rev t) eqn:Rv; [discriminate|].
@@ -460,11 +462,13 @@ Qed.
 
 Lemma failed_keeps_seq f now s i s1 e : run_input f now s i = Failed s1 e -> s_next_seq s1 = s_next_seq s.
 Proof.
-  destruct i as [ps ts ref md amd force | id force at_eff rmeta | [a|id] md | [a|id] k]; simpl.
-  - destruct ps as [|q ps']; [intros H; inversion H; reflexivity|].
+  script_split i.
+  { simpl. unfold create_tx. destruct ps as [|q ps']; [intros H; inversion H; reflexivity|].
     destruct (feasible force (s_vols s) (q :: ps')); simpl; [|intros H; inversion H; reflexivity].
     destruct (commit_transaction f now s (q :: ps') md ts ref) as [s0 [t|]] eqn:E; [discriminate|].
-    intros H; inversion H; subst. eapply commit_none_seq; exact E.
+    intros H; inversion H; subst. eapply commit_none_seq; exact E. }
+  destruct i as [ps ts ref md amd force | id force at_eff rmeta | [a|id] md | [a|id] k | ps ts ref md amd force smd samd];
+    [apply Hc | | | | | | script_bullet Hc]; simpl.
   - destruct (find_tx (s_txs s) id) as [t|]; [|intros H; inversion H; reflexivity].
     destruct (t_rev t); [intros H; inversion H; reflexivity|].
     match goal with |- context [match ?chk with RCOk => _ | RCInsufficient => _ | RCPanic => _ end] => destruct chk end;
